@@ -1,5 +1,6 @@
 import PncModel.Camx.WindRead
 import PncModel.Camx.UamivRead
+import PncModel.Camx.SlabRead
 /-
 WindRecRead: the record-based ("Read") reader of CAMx wind files (`camxfiles/wind/Read.py` on
 `FortranFileUtil.RecordFile` and `timetuple`).
@@ -9,10 +10,13 @@ time header (counting the data records of the first step on the way: that gives 
 that second header — or, when the file ends first, presents one step with a nominal step of 100 —, finds the last
 time by jumping `2·layers + 1` records at a time while it lands on time headers, and then fetches every (time, layer,
 U/V) slab by converting it into a byte position.  Times are the integer HHMM values of the float words; rows and
-columns come from the caller (`cells = rows · cols`).
+columns come from the caller (`cells = rows · cols`).  The time arithmetic is that of `SlabRead` (`timetuple` with an end of
+day of 2400; a `timerange()` longer than the counted steps overruns the output array).
 -/
 namespace WindRec
-open Words UamivRead
+open Words
+open UamivRead (sint)
+open SlabRead (DT timediff timeadd trange)
 
 structure RView where
   nt : Nat
@@ -69,8 +73,8 @@ def findEnd (ws : List Word) (nl : Nat) : Nat → Nat → DT → DT
 
 def fetch (ws : List Word) (cells hdrW nl padW : Nat) (start fin : DT) (step : Int) (dt : DT) (k uv : Nat) :
     Option (List Word) :=
-  if timediff 2400 fin dt > 0 ∨ timediff 2400 start dt < 0 then none else
-  let S := Int.tdiv (timediff 2400 start dt) step
+  if timediff fin dt > 0 ∨ timediff start dt < 0 then none else
+  let S := Int.tdiv (timediff start dt) step
   -- `int(nsteps / nlayers)` with nsteps = S · nl
   let T := Int.tdiv (S * (nl : Int)) (nl : Int)
   let q : Int := T * ((hdrW + 2 : Nat) : Int) + T * 3 + S * (nl : Int) * (padW : Int) * 2 + ((hdrW + 2 : Nat) : Int) +
@@ -99,7 +103,7 @@ def read (cells : Nat) (ws : List Word) : Option RView :=
     -- one time step
     let nl := n / 2
     let step : Int := 100
-    match trange 2400 step (timeadd 2400 start step) 1 (timeadd 2400 start 0) with
+    match trange 2400 step (timeadd 2400 start step) 2 (timeadd 2400 start 0) with
     | none => none
     | some ts =>
       let slab (uv : Nat) := ts.mapM (fun dt => (List.range nl).mapM (fun ki => fetch ws cells hdrW nl padW start start step dt (ki + 1) uv))
@@ -110,14 +114,14 @@ def read (cells : Nat) (ws : List Word) : Option RView :=
     let nl := (n - 1) / 2
     if ws.length < p2 + 1 + hdrW then none else
     let second : DT := (sint (ws.getD (p2 + 2) 0), truncF32 (ws.getD (p2 + 1) 0))
-    let step := timediff 2400 start second
+    let step := timediff start second
     if step = 0 then none else
     let fin := match nextRec ws p2 with
       | none => second
       | some p3 => findEnd ws nl ws.length p3 second
-    let cnt := Int.tdiv (timediff 2400 start fin) step + 1
+    let cnt := Int.tdiv (timediff start fin) step + 1
     if cnt < 0 then none else
-    match trange 2400 step (timeadd 2400 (timeadd 2400 fin step) 0) cnt.toNat (timeadd 2400 start 0) with
+    match trange 2400 step (timeadd 2400 (timeadd 2400 fin step) 0) (cnt.toNat + 1) (timeadd 2400 start 0) with
     | none => none
     | some ts =>
       let zero := List.replicate cells (0 : Word)
@@ -134,7 +138,7 @@ namespace WindRec
 open Wire Words
 
 def showView (v : RView) : String :=
-  let ts := showList (fun (p : UamivRead.DT) => s!"{p.1}:{p.2}") v.times
+  let ts := showList (fun (p : SlabRead.DT) => s!"{p.1}:{p.2}") v.times
   let flat (d : List (List (List Word))) : String := showWords (d.map List.flatten).flatten
   s!"ok nt={v.nt} nz={v.nz} times={ts} u={flat v.u} v={flat v.v}"
 
